@@ -92,6 +92,9 @@ def t2(cx):
     return res
 
 
+_DUR = {'fields': {'delay'}}
+
+
 def _delay_operand(n):
     """'delay' when args[2] is Some(<something>.delay), 'none' for None, else text"""
     if len(n['args']) < 3:
@@ -101,7 +104,7 @@ def _delay_operand(n):
         return 'none'
     if a[0] == 'agg' and a[2].endswith('Option::Some') and a[3]:
         root, steps = access_path(a[3][0])
-        if steps[-1:] == ['delay'] and root[0] == 'arg' and root[1] == 1:
+        if len(steps) == 1 and root[0] == 'arg' and root[1] == 1 and steps[0] in _DUR['fields']:
             return 'delay'
         return 'some(%s)' % render(a[3][0])
     return render(a)
@@ -122,6 +125,7 @@ def t34(cx):
                 continue
             seen.add((tag, meth))
             want_delay, word = spec
+            _DUR['fields'] = {f for f, t in roles.adt_fields(cx, tag) if F.adt_path(t) == 'std::time::Duration'} or {'delay'}
             fn = cx.method(im, meth)
             g = cx.graph(fn['key'])
             label = cx.label(fn)
@@ -155,6 +159,7 @@ def t34(cx):
         seen.add(tag)
         fn = F.impl_fn(im, 'actual_subscribe')
         g = cx.graph(fn['key'])
+        _DUR['fields'] = {f for f, t in roles.adt_fields(cx, tag) if F.adt_path(t) == 'std::time::Duration'} or {'delay'}
         scheds = [n for n in g.nodes if n['kind'] in ('call', 'enter') and n['name'] == SCHEDULE]
         ops = sorted({_delay_operand(n) for n in scheds})
         ok = ops == [SUB_SPEC[tag]]
